@@ -10,10 +10,43 @@ import EasyMl.Model.MatrixView
 namespace EasyMl.MatrixView
 open EasyMl.Fallible
 
+/-- `(start, length)` of the consecutive slices cut by the boundaries `bounds` after `prev` -/
+def diffs : List Nat → Nat → List (Nat × Nat)
+  | [], _ => []
+  | b :: bs, prev => (prev, b - prev) :: diffs bs b
+
+/-- what `check_axis` lets through: every boundary within the length and every boundary after
+    the first strictly greater than the *first* -/
+def axisChecked : List Nat → Nat → Bool
+  | [], _ => true
+  | first :: rest, length =>
+    decide (first ≤ length) && rest.all fun x => decide (x ≤ length) && decide (first < x)
+
+/-- non-decreasing -/
+def sortedLe : List Nat → Bool
+  | [] => true
+  | [_] => true
+  | a :: b :: rest => decide (a ≤ b) && sortedLe (b :: rest)
+
+/-- the boundary lists `Matrix::partition` accepts (it panics on all others: `partitionSpec`) -/
+def PartitionAccepted (rows columns : Nat) (rp cp : List Nat) : Prop :=
+  axisChecked rp rows = true ∧ axisChecked cp columns = true ∧
+    (rp.length + 1) * (cp.length + 1) ≤ usizeMax ∧ sortedLe rp = true ∧ sortedLe cp = true
+
+/-- the size `partition` reports for the sub-grid with `rl` rows and `cl` columns: an empty one
+    is `0×0` -/
+def normSize (rl cl : Nat) : Nat × Nat := if rl = 0 ∨ cl = 0 then (0, 0) else (rl, cl)
+
+/-- `(first row, rows)` and `(first column, columns)` of the part at grid position `(kr, kc)` -/
+def partRect (rows columns : Nat) (rp cp : List Nat) (kr kc : Nat) : (Nat × Nat) × (Nat × Nat) :=
+  ((diffs (rp ++ [rows]) 0).getD kr (0, 0), (diffs (cp ++ [columns]) 0).getD kc (0, 0))
+
 /-- the size a composition reports: the request clipped to the source for ranges -/
 def MExpr.size : MExpr → Nat × Nat
   | .leaf rows columns => (rows, columns)
   | .leafCM rows columns => (rows, columns)
+  | .part rows columns rp cp kr kc =>
+    normSize (partRect rows columns rp cp kr kc).1.2 (partRect rows columns rp cp kr kc).2.2
   | .range e rows columns =>
     (min (rows.start + rows.length) e.size.1 - rows.start,
      min (columns.start + columns.length) e.size.2 - columns.start)
@@ -25,6 +58,12 @@ def MExpr.size : MExpr → Nat × Nat
 def MExpr.cell : MExpr → Nat → Nat → Option Nat
   | .leaf rows columns, i, j => if i < rows ∧ j < columns then some (i * columns + j) else none
   | .leafCM rows columns, i, j => if i < rows ∧ j < columns then some (j * rows + i) else none
+  | .part rows columns rp cp kr kc, i, j =>
+    if i < (MExpr.part rows columns rp cp kr kc).size.1 ∧
+        j < (MExpr.part rows columns rp cp kr kc).size.2 then
+      some (((partRect rows columns rp cp kr kc).1.1 + i) * columns +
+        (partRect rows columns rp cp kr kc).2.1 + j)
+    else none
   | .range e rows columns, i, j =>
     if i < (MExpr.range e rows columns).size.1 ∧ j < (MExpr.range e rows columns).size.2 then
       e.cell (i + rows.start) (j + columns.start)
@@ -40,6 +79,9 @@ def MExpr.cell : MExpr → Nat → Nat → Option Nat
 def MExpr.LeavesOk : MExpr → Prop
   | .leaf rows columns => 1 ≤ rows ∧ 1 ≤ columns ∧ rows * columns ≤ usizeMax
   | .leafCM rows columns => 1 ≤ rows ∧ 1 ≤ columns ∧ rows * columns ≤ usizeMax
+  | .part rows columns rp cp kr kc =>
+    (1 ≤ rows ∧ 1 ≤ columns ∧ rows * columns ≤ usizeMax) ∧ PartitionAccepted rows columns rp cp ∧
+      kr ≤ rp.length ∧ kc ≤ cp.length
   | .range e _ _ => e.LeavesOk
   | .reverse e _ _ => e.LeavesOk
   | .map e => e.LeavesOk
@@ -50,16 +92,47 @@ def MExpr.LeavesOk : MExpr → Prop
 def MExpr.Buildable : MExpr → Bool
   | .leaf _ _ => true
   | .leafCM _ _ => true
+  | .part _ _ _ _ _ _ => true
   | .range e _ _ => e.Buildable
   | .reverse e _ _ => e.Buildable
   | .map e => e.Buildable
   | .viaTensor e => e.Buildable && decide (1 ≤ e.size.1) && decide (1 ≤ e.size.2)
+
+/-- the source at the bottom of a composition -/
+def MExpr.base : MExpr → MExpr
+  | .range e _ _ => e.base
+  | .reverse e _ _ => e.base
+  | .map e => e.base
+  | .viaTensor e => e.base
+  | e => e
+
+/-- the number of elements of the matrix (or tensor) at the bottom of a composition -/
+def MExpr.dataLen : MExpr → Nat
+  | .leaf rows columns => rows * columns
+  | .leafCM rows columns => rows * columns
+  | .part rows columns _ _ _ _ => rows * columns
+  | .range e _ _ => e.dataLen
+  | .reverse e _ _ => e.dataLen
+  | .map e => e.dataLen
+  | .viaTensor e => e.dataLen
+
+/-- reading index `(i, j)` of a view over the data of its source -/
+def MExpr.read {α : Type} (e : MExpr) (data : List α) (i j : Nat) : Option α :=
+  (e.cell i j).bind (data[·]?)
+
+/-- writing `x` at index `(i, j)` of a view: the designated cell of the source's data changes,
+    nothing happens outside the view -/
+def MExpr.write {α : Type} (e : MExpr) (data : List α) (i j : Nat) (x : α) : List α :=
+  match e.cell i j with
+  | some o => data.set o x
+  | none => data
 
 /-- the layout a composition reports, declaratively: that of its source for ranges, maps and the
     tensor round trip, `Other` after a reversal -/
 def MExpr.layoutSpec : MExpr → MLayout
   | .leaf _ _ => .rowMajor
   | .leafCM _ _ => .columnMajor
+  | .part _ _ _ _ _ _ => .rowMajor
   | .range e _ _ => e.layoutSpec
   | .reverse _ _ _ => .other
   | .map e => e.layoutSpec
@@ -71,11 +144,6 @@ def gridEqSpec (l r : Grid) : Prop :=
 
 /-! ### partitions -/
 
-/-- `(start, length)` of the consecutive slices cut by the boundaries `bounds` after `prev` -/
-def diffs : List Nat → Nat → List (Nat × Nat)
-  | [], _ => []
-  | b :: bs, prev => (prev, b - prev) :: diffs bs b
-
 /-- the row slices (as offsets) of the sub-grid `[rs, rs+rl) × [cs, cs+cl)` of a matrix with
     `columns` columns -/
 def partSlices (columns rs rl cs cl : Nat) : List (List Nat) :=
@@ -86,19 +154,6 @@ def gridSpec (m : MatrixMeta) (rowPartitions columnPartitions : List Nat) : List
   (diffs (rowPartitions ++ [m.rows]) 0).flatMap fun (rs, rl) =>
     (diffs (columnPartitions ++ [m.columns]) 0).map fun (cs, cl) =>
       MatrixPart.ofSlices (partSlices m.columns rs rl cs cl)
-
-/-- what `check_axis` lets through: every boundary within the length and every boundary after
-    the first strictly greater than the *first* -/
-def axisChecked : List Nat → Nat → Bool
-  | [], _ => true
-  | first :: rest, length =>
-    decide (first ≤ length) && rest.all fun x => decide (x ≤ length) && decide (first < x)
-
-/-- non-decreasing -/
-def sortedLe : List Nat → Bool
-  | [] => true
-  | [_] => true
-  | a :: b :: rest => decide (a ≤ b) && sortedLe (b :: rest)
 
 /-- The outcome of `Matrix::partition`: the grid, or the panic it raises (in the order the code
     reaches them). -/
